@@ -270,6 +270,14 @@ def env_at(node: ast.AST, func: ast.AST, keep_params: bool = True, loop_elems: b
                         env.pop(nm, None)
                     env[acc] = comp
                     continue
+            if isinstance(s, ast.If) and len(s.body) == 1 and len(s.orelse) == 1 and all(
+                    isinstance(b_, ast.Assign) and len(b_.targets) == 1 and isinstance(b_.targets[0], ast.Name) for b_ in (s.body[0], s.orelse[0])) \
+                    and s.body[0].targets[0].id == s.orelse[0].targets[0].id and s.body[0].targets[0].id not in params \
+                    and not any(isinstance(x, ast.NamedExpr) for x in ast.walk(s)):
+                # `if c: x = A` / `else: x = B` denotes x = A if c else B
+                nm = s.body[0].targets[0].id
+                env[nm] = ast.IfExp(test=resolved(s.test, env), body=resolved(s.body[0].value, env), orelse=resolved(s.orelse[0].value, env))
+                continue
             if isinstance(s, (ast.If, ast.For, ast.While, ast.With, ast.Try, ast.Match)):
                 for nm in _assigned_names(s):
                     env.pop(nm, None)
